@@ -400,7 +400,102 @@ func c02Poisons() []poison {
 	}
 }
 
+// c02InsertBatches: the k-th of n inserted documents is rejected (duplicate _id,
+// duplicate unique key, duplicate inside the batch), ordered and unordered,
+// compared with single inserts on a twin.
+func c02InsertBatches(c *fw.Ctx) {
+	caseNo := 0
+	for kind := 0; kind < 3; kind++ {
+		for n := 1; n <= 6; n++ {
+			for k := 0; k < n; k++ {
+				for _, ordered := range []bool{true, false} {
+					caseNo++
+					if caseNo%c.NBatches != c.Batch {
+						continue
+					}
+					idx := 1500000 + caseNo
+					if c.Skip(idx) {
+						continue
+					}
+					var w, tw *world
+					describe := func() interface{} {
+						if w == nil {
+							return nil
+						}
+						return map[string]interface{}{"history": w.history()}
+					}
+					c.Case(idx, describe, nil, func() {
+						c.Eval(1)
+						c.Count("directed_shapes", 1)
+						var err error
+						if w, err = openWorld(""); err != nil {
+							return
+						}
+						defer w.close()
+						if tw, err = openWorld(""); err != nil {
+							return
+						}
+						defer tw.close()
+						setup := []drv.Op{
+							{Kind: drv.InsertOne, DB: "d", Coll: "c", Docs: []bson.D{{{Key: "_id", Value: "partner"}, {Key: "u", Value: int64(777)}}}},
+							{Kind: drv.CreateIndex, DB: "d", Coll: "c", Index: drv.IndexSpec{Keys: bson.D{{Key: "u", Value: int32(1)}}, Unique: true}},
+							{Kind: drv.CreateIndex, DB: "d", Coll: "c", Index: drv.IndexSpec{Keys: bson.D{{Key: "g", Value: int32(-1)}}}},
+						}
+						for _, o := range setup {
+							a, b := o.Clone(), o.Clone()
+							w.exec(&a)
+							tw.exec(&b)
+						}
+						var docs []bson.D
+						for i := 0; i < n; i++ {
+							d := bson.D{{Key: "_id", Value: int32(i)}, {Key: "u", Value: int32(i)}, {Key: "g", Value: int32(i % 2)}}
+							if i == k {
+								switch kind {
+								case 0:
+									d[0].Value = "partner" // duplicate _id
+								case 1:
+									d[1].Value = 777.0 // duplicate unique key (other numeric type)
+								default:
+									if k > 0 {
+										d[1].Value = int64(k - 1) // duplicate of an earlier item of the batch
+									} else {
+										d[1].Value = int32(777)
+									}
+								}
+							}
+							docs = append(docs, d)
+						}
+						op := drv.Op{Kind: drv.InsertMany, DB: "d", Coll: "c", Docs: docs, Ordered: ordered}
+						opc := op.Clone()
+						res := w.exec(&op)
+						tres := c02Singles(tw, &opc)
+						c.Count("batch_twin_compared", 1)
+						wit := map[string]interface{}{"history": w.history(), "twin_history": tw.history(), "n": n, "k": k, "ordered": ordered}
+						if res.Err == "" {
+							c.Violate("directed:no-error", fmt.Sprintf("InsertMany whose item %d of %d is a duplicate reported success", k, n), wit)
+							return
+						}
+						if tres.succeeded > 0 {
+							c.Count("batch_partial_success", 1)
+						}
+						if len(res.IDs)+len(tres.ids) > 0 && string(gen.ValueBytes(bson.A(res.IDs))) != string(gen.ValueBytes(bson.A(tres.ids))) {
+							c.Violate("batch:inserted-ids", fmt.Sprintf("InsertMany(ordered=%v) with a duplicate at item %d of %d reported inserted ids %s, single inserts succeeded for %s", ordered, k, n, gen.JSON(bson.A(res.IDs)), gen.JSON(bson.A(tres.ids))), wit)
+							return
+						}
+						if d := normDump(w.engine.Catalog()).Diff(normDump(tw.engine.Catalog())); d != "" {
+							c.Violate("batch:state-differs-from-singles", fmt.Sprintf("after InsertMany(ordered=%v) with a duplicate at item %d of %d the database differs from inserting the items one by one: %s", ordered, k, n, d), wit)
+							return
+						}
+						c.Nontrivial(fw.Hash64([]byte(fmt.Sprintf("insertmany/%d/%d/%d/%v", kind, n, k, ordered))))
+					})
+				}
+			}
+		}
+	}
+}
+
 func c02Directed(c *fw.Ctx) {
+	c02InsertBatches(c)
 	poisons := c02Poisons()
 	ctx := context.Background()
 	caseNo := 0
